@@ -344,6 +344,12 @@ pub fn gen_c03(rng: &mut Rng, tier: Tier) -> C03Plan {
     let mut plan = C03Plan { note: String::new(), opts, pics: Vec::new(), steps: Vec::new() };
     let mut tr = rng.byte();
     let start_with_p = rng.chance(1, 16);
+    // half of the no-reference histories: every transmitted macroblock is INTRA and the
+    // picture is cut at macroblock boundaries (the tail then NEEDS the missing reference)
+    let intra_only_cut = start_with_p && rng.bool();
+    if intra_only_cut {
+        cfg.mb_weights = [0, 0, 0, 0, 3, 1, 0];
+    }
     let chain = if huge { 2 } else { 1 + rng.usize(if tier == Tier::Quick { 4 } else { 8 }) };
     let mut push_pic = |plan: &mut C03Plan, p: PlanPic| -> usize {
         plan.pics.push(p);
@@ -395,7 +401,13 @@ pub fn gen_c03(rng: &mut Rng, tier: Tier) -> C03Plan {
                 let (pp, marks) = PlanPic::from_spec(s, vec![], "predicted picture");
                 let len = pp.bytes.len();
                 // truncation (eof_for_good) after any byte of the macroblock layer
-                let cut = if k < 8 {
+                let cut = if intra_only_cut && !marks.mbs.is_empty() {
+                    // right after a whole macroblock, preferably the last one of a row
+                    let cols = (w as usize + 15) / 16;
+                    let rows_done = 1 + rng.usize(((marks.mbs.len() / cols.max(1)).max(1)).min(4));
+                    let mbi = if rng.bool() { (rows_done * cols).min(marks.mbs.len()) } else { 1 + rng.usize(marks.mbs.len()) };
+                    Some((marks.mbs[mbi - 1].2 + 7) / 8)
+                } else if k < 8 {
                     let lo = (marks.header_end + 7) / 8;
                     Some(if rng.chance(1, 8) { rng.usize(len + 1) } else { lo + rng.usize(len - lo + 1).min(len - lo) })
                 } else {
